@@ -10,6 +10,7 @@ mod c05;
 mod c06;
 mod c07;
 mod c18;
+mod c19;
 
 static HOOKS: rzmq::verif::sched::Hooks = rzmq::verif::sched::Hooks {
   point: mc_core::e2::hook_point,
@@ -62,6 +63,7 @@ fn main() {
         "C06" => c06::run(tier),
         "C07" => c07::run(tier),
         "C18" => c18::run(tier),
+        "C19" => c19::run(tier),
         _ => {
           eprintln!("no check registered for {}", prop);
           std::process::exit(2);
@@ -85,6 +87,7 @@ fn main() {
         "C06" => c06::replay(&sub, &v["witness"]),
         "C07" => c07::replay(&sub, &v["witness"]),
         "C18" => c18::replay(&sub, &v["witness"]),
+        "C19" => c19::replay(&sub, &v["witness"]),
         _ => Err(format!("no replay registered for {}", prop)),
       };
       match res {
